@@ -1,7 +1,7 @@
 From Coq Require Import List NArith ZArith Bool.
 Import ListNotations.
 Require Import MV.Common.Interleave MV.C16.Model MV.C16.Spec MV.C16.Conc MV.C16.ExecGen MV.C16.Retention
-               MV.C16.Proofs MV.C16.ProofsDrain MV.C16.ProofsUniform MV.C16.ProofsConc MV.C16.ExecProofs.
+               MV.C16.Proofs MV.C16.ProofsDrain MV.C16.ProofsUniform MV.C16.ProofsConc MV.C16.ProofsConc2 MV.C16.ExecProofs.
 Open Scope N_scope.
 Require Import MV.C16.Properties.
 
@@ -41,6 +41,10 @@ Print Assumptions C16_choice_sequences_distinct.
 Check (C16_retention_runs_model_push : forall cap cs c,
   after true cap (cs ++ [c]) = fst (push true (N.of_nat cap + N.of_nat (length cs)) c (after true cap cs))).
 Print Assumptions C16_retention_runs_model_push.
+Check (C16_retention_for_any_value_stream : forall (f : N -> N) cap cs,
+  values (feedp true (with_capacity cap) (map (fun p => (f (fst p), snd p)) (positions 0 (repeat 0 cap ++ cs))))
+  = map f (values (after true cap cs))).
+Print Assumptions C16_retention_for_any_value_stream.
 Check (C16_counting_functions_count : forall cap i m,
   count_retained true cap i m = retained_count (N.of_nat cap) i m /\
   N.of_nat (length (all_choices true (N.of_nat cap) m)) = total (N.of_nat cap) m).
@@ -73,6 +77,12 @@ Check (C16_concurrent_accounting_except_late_push_partial : forall cap ps sched,
     | MEmpty _ => True
     end).
 Print Assumptions C16_concurrent_accounting_except_late_push_partial.
+Check (C16_consumers_exclusive_and_side_stable : forall cap ps sched,
+  let c := fst (exec step site (init_config cap ps) sched) in
+  (forall t u l l', nth_error (snd c) t = Some l -> nth_error (snd c) u = Some l' ->
+                    region (pcl l) = true -> region (pcl l') = true -> t = u) /\
+  (forall t l sd, nth_error (snd c) t = Some l -> drain_side (pcl l) = Some sd -> usep (fst c) = negb sd)).
+Print Assumptions C16_consumers_exclusive_and_side_stable.
 Check (C16_late_push_refutes : exists c o, known_class c = Some 1 /\
               agrees (fun _ _ _ => true) c o = true /\ spec_ok (fun _ _ _ => true) c o = false).
 Print Assumptions C16_late_push_refutes.
